@@ -15,7 +15,8 @@ RULE = ('seeded value generator (ints of any magnitude, floats incl. -0.0/inf/na
         '{0,1,16,32768} x pickle protocol 0-5 x Disk/JSONDisk(0,1,9) x store paths x every applicable accessor; the '
         'oracle is type-exact deep equality with floats by bit class. evaluations = accessor reads judged; '
         'distinct_nontrivial = distinct (value class, storage mode read from the row, side of T, disk class, store '
-        'path) cells')
+        'path) cells'
+        " Plus: a Disk subclass with six file names (the documented filename() hook) - a store whose file name is in use is refused loudly or leaves every other key's value intact.")
 DISTINCT = ('cells',)
 REQUIRED = ('stores_refused_for_a_file_name_in_use', 'stores_accepted_beside_colliding_names', 'values_popped_in_abandoned_blocks', 'numbers_stepped_in_place', 'stores_over_expired_file', 'stores_over_live_file', 'stores_over_expired_inline', 'mode_raw', 'mode_binary_file', 'mode_text_file', 'mode_pickle_inline', 'mode_pickle_file',
             'streams', 'rejected_values', 'jsondisk_roundtrips', 'deque_roundtrips', 'index_roundtrips',
